@@ -594,3 +594,25 @@ def implies_not_call(f, call_suffix, defs=None):
                 safe.add(l)
                 changed = True
     return safe, res_all
+
+
+def deep_sources(f, defs, operand, limit=400):
+    """backward data provenance of an operand THROUGH calls: the union of the sources of the operand and,
+    for every call among them, of that call's arguments (transitively).  Control dependence is not included:
+    a value that only decides a branch is not a source."""
+    out = set()
+    seen_calls = set()
+    work = [operand]
+    n = 0
+    while work and n < limit:
+        n += 1
+        o = work.pop()
+        srcs = defs._op_sources(o, 0, set(), True)
+        for s in srcs:
+            out.add(s)
+            if s[0] == "call" and isinstance(s[2], int) and s[2] not in seen_calls:
+                seen_calls.add(s[2])
+                t = f.blocks[s[2]]["t"]
+                for a in t.get("a", []):
+                    work.append(a)
+    return out
